@@ -810,7 +810,10 @@ fn same_effect_oracle(o: &mut Outcome, cases: &[OpsCase], results: &[Option<Stri
     }
     for (kv, m) in by_kv {
         let key = kv.split('=').next().unwrap_or("").to_string();
-        if let (Some(a), Some(b)) = (m.get("file"), m.get("config")) {
+        // edition / style_edition / version select the defaults inside load_config (CliOptions::edition() …),
+        // not inside override_value: their file-vs-flag equivalence is compared in the load stage
+        let via_load = ["edition", "style_edition", "version"].contains(&key.as_str());
+        if let (Some(a), Some(b), false) = (m.get("file"), m.get("config"), via_load) {
             o.direct_evals += 1;
             o.direct_distinct += 1;
             if a.0 != b.0 {
@@ -1141,7 +1144,8 @@ struct LoadObs {
     family: &'static str,
 }
 
-fn stage_loads(ctx: &Ctx, o: &mut Outcome, layouts: &[Layout], obs: &[LoadObs], with_binary: bool) {
+fn stage_loads(ctx: &Ctx, o: &mut Outcome, layouts: &[Layout], obs: &[LoadObs], with_binary: &dyn Fn(usize) -> bool) -> Vec<Option<String>> {
+    let mut api_answers: Vec<Option<String>> = vec![];
     // API
     let cases: Vec<Value> = obs
         .iter()
@@ -1157,6 +1161,7 @@ fn stage_loads(ctx: &Ctx, o: &mut Outcome, layouts: &[Layout], obs: &[LoadObs], 
             Some(r) => r,
             None => {
                 o.count("load:child-inconclusive");
+                api_answers.push(None);
                 continue;
             }
         };
@@ -1167,13 +1172,11 @@ fn stage_loads(ctx: &Ctx, o: &mut Outcome, layouts: &[Layout], obs: &[LoadObs], 
         o.count(&format!("load-api:{}", b.family));
         o.count(&format!("load-api-result:{}", if expect.starts_with("err") { expect.as_str() } else if expect.starts_with("none") { "no-file" } else { "file" }));
         let desc = format!("[{}] load_config({:?}, `{}`) in {}", b.family, b.file_dir, b.opts.describe(), l.describe());
+        api_answers.push(Some(expect.clone()));
         o.push("corr", "cfg.loadall", format!("cfg.loadall {}", l.load_args(b.file_dir.as_deref(), &b.opts)), expect, desc, !all_config_files(l).is_empty());
     }
-    if !with_binary {
-        return;
-    }
     // the binary: `--print-config current <file>` and `-v --check <file>` (which file was used)
-    let jobs: Vec<(usize, bool)> = (0..obs.len()).filter(|i| obs[*i].file_dir.is_some()).flat_map(|i| [(i, false), (i, true)]).collect();
+    let jobs: Vec<(usize, bool)> = (0..obs.len()).filter(|i| obs[*i].file_dir.is_some() && with_binary(*i)).flat_map(|i| [(i, false), (i, true)]).collect();
     let runs: Vec<cli::Ran> = par_map(&jobs, |(i, verbose)| {
         let b = &obs[*i];
         let l = &layouts[b.layout];
@@ -1227,6 +1230,62 @@ fn stage_loads(ctx: &Ctx, o: &mut Outcome, layouts: &[Layout], obs: &[LoadObs], 
             o.push("corr", "cfg.loadtoml", format!("cfg.loadtoml {}", args), expect, desc, !all_config_files(l).is_empty());
         }
     }
+    api_answers
+}
+
+/// style_edition / version / edition: every combination in the file x a list of command lines
+fn gen_precedence(ctx: &Ctx, base: &Path, first_layout: usize) -> (Vec<Layout>, Vec<LoadObs>, Vec<(usize, usize)>) {
+    let ses = ["", "2015", "2018", "2021", "2024", "2027"];
+    let vers = ["", "One", "Two"];
+    let eds = ["", "2015", "2018", "2021", "2024"];
+    // (--style-edition, --edition, --config pairs)
+    let clis: Vec<(Option<&str>, Option<&str>, Vec<(&str, &str)>)> = vec![
+        (None, None, vec![]),
+        (Some("2024"), None, vec![]),
+        (Some("2015"), None, vec![]),
+        (Some("2027"), None, vec![]),
+        (None, Some("2024"), vec![]),
+        (None, Some("2018"), vec![]),
+        (None, None, vec![("style_edition", "2024")]),
+        (None, None, vec![("style_edition", "2018")]),
+        (None, None, vec![("version", "Two")]),
+        (None, None, vec![("version", "One")]),
+        (None, None, vec![("edition", "2024")]),
+        (None, None, vec![("edition", "2021")]),
+        (Some("2015"), None, vec![("style_edition", "2024")]),
+        (None, Some("2024"), vec![("version", "One")]),
+        (None, Some("2015"), vec![("edition", "2024")]),
+        (Some("2021"), Some("2024"), vec![("version", "Two")]),
+        (None, None, vec![("style_edition", "2021"), ("edition", "2024"), ("version", "Two")]),
+    ];
+    let mut layouts = vec![];
+    let mut obs = vec![];
+    let mut index = vec![];
+    let mut n = 0;
+    for se in ses {
+        for ver in vers {
+            for ed in eds {
+                let root = base.join(format!("p{}", n));
+                let dir = root.join("t");
+                let mut c = vec![];
+                if !se.is_empty() { c.push(ctx.tv("style_edition", se)); }
+                if !ver.is_empty() { c.push(ctx.tv("version", ver)); }
+                if !ed.is_empty() { c.push(ctx.tv("edition", ed)); }
+                let l = Layout { root: root.clone(), dirs: vec![DirSpec { path: dir.clone(), dotted: Slot::Absent, plain: Slot::File(0) }], contents: vec![c], home: root.join("_home"), xdg: None, sources: vec![(dir.join("f0.rs"), n % PROBE_SOURCES.len())] };
+                for (ci, (fse, fed, inl)) in clis.iter().enumerate() {
+                    let mut oo = Opts::default().with_inline(inl.iter().map(|(k, v)| ctx.tv(k, v)).collect());
+                    oo.api.style_edition = fse.map(|x| x.to_string());
+                    oo.api.edition = fed.map(|x| x.to_string());
+                    oo.split_config = (n + ci) % 2 == 0;
+                    obs.push(LoadObs { layout: first_layout + layouts.len(), file_dir: Some(dir.clone()), opts: oo, family: "style-edition-precedence" });
+                    index.push((n, ci));
+                }
+                layouts.push(l);
+                n += 1;
+            }
+        }
+    }
+    (layouts, obs, index)
 }
 
 // ------------------------------------------------------------------------------------------------
@@ -1466,6 +1525,8 @@ fn probes(ctx: &Ctx, o: &mut Outcome) {
         ops_case(vec![Op::Override(ctx.tv("hide_parse_errors", "true"))], &["show_parse_errors"]),
         json!({"t": "load", "home": ctx.empty_home.to_string_lossy(), "xdg": ctx.empty_home.to_string_lossy(), "dir": d.to_string_lossy(), "opts": ApiOpts::default().to_json(), "keys": ["unstable_features"]}),
         json!({"t": "load", "home": ctx.empty_home.to_string_lossy(), "xdg": ctx.empty_home.to_string_lossy(), "dir": ctx.neutral.to_string_lossy(), "opts": ApiOpts { inline: vec![("unstable_features".into(), "true".into())], ..Default::default() }.to_json(), "keys": ["unstable_features"]}),
+        json!({"t": "ops", "ops": [Op::Toml(vec![ctx.tv("skip_macro_invocations", "vec")]).real()], "roundtrip": true}),
+        json!({"t": "ops", "ops": [Op::Toml(vec![ctx.tv("skip_macro_invocations", "*")]).real()], "roundtrip": true}),
     ];
     let res = run_children(&cases, &ctx.work, "probe", 1, Duration::from_secs(60));
     let get = |i: usize| -> String { res.get(i).and_then(|x| x.as_ref()).map(|v| v["r"].as_str().or(v["fields"].as_str()).unwrap_or("").to_string()).unwrap_or_default() };
@@ -1485,6 +1546,8 @@ fn probes(ctx: &Ctx, o: &mut Outcome) {
     o.probes.push(json!({"id": "F29", "fails": val(6, "show_parse_errors") == "true", "what": format!("`--config hide_parse_errors=true` yields show_parse_errors = {}: set_hide_parse_errors copies the value of the deprecated alias into its successor without negating it", val(6, "show_parse_errors")), "detail": {"fields": get(6)}}));
     // F30
     o.probes.push(json!({"id": "F30", "fails": val(7, "unstable_features") != val(8, "unstable_features"), "what": format!("`unstable_features = true` in rustfmt.toml ends as {} (apply_to calls config.set().unstable_features(false) when the flag is absent), `--config unstable_features=true` as {}", val(7, "unstable_features"), val(8, "unstable_features")), "detail": {"file": get(7), "config": get(8)}}));
+    // F31
+    o.probes.push(json!({"id": "F31", "fails": get(9) != "same" || get(10) != "same", "what": format!("print / re-parse of `skip_macro_invocations = [\"vec\"]` gives `{}`, of `[\"*\"]` gives `{}`", get(9), get(10)), "detail": {}}));
     // F8a and F3 on the binary
     let args: Vec<String> = ["--print-config", "current", "f.rs", "--config", "use_small_heuristics=Off"].iter().map(|s| s.to_string()).collect();
     let r = run_bin(ctx, &ctx.neutral, &ctx.empty_home, Some(&ctx.empty_home.to_string_lossy()), &args, b"");
@@ -1593,8 +1656,33 @@ pub fn run(tier: &str, seed: u64, out: &Path) -> i32 {
     }
     // the missing-directory and no-directory families have no source file: API only
     let (with_file, api_only): (Vec<LoadObs>, Vec<LoadObs>) = obs.into_iter().partition(|b| b.file_dir.as_ref().map(|d| layouts[b.layout].sources.iter().any(|(p, _)| p.parent() == Some(d.as_path()))).unwrap_or(false));
-    stage_loads(&ctx, &mut o, &layouts, &with_file, true);
-    stage_loads(&ctx, &mut o, &layouts, &api_only, false);
+    stage_loads(&ctx, &mut o, &layouts, &with_file, &|_| true);
+    stage_loads(&ctx, &mut o, &layouts, &api_only, &|_| false);
+
+    // style_edition / version / edition precedence
+    {
+        let (pl, pobs, pindex) = gen_precedence(&ctx, &lay, 0);
+        let idx: Vec<usize> = (0..pl.len()).collect();
+        par_map(&idx, |i| pl[*i].materialise());
+        let stride = if thorough { 1 } else { 6 };
+        let answers = stage_loads(&ctx, &mut o, &pl, &pobs, &|i| i % stride == 0);
+        // one of the three options alone: from the file (no flag) and from --config (empty file) — all fields equal
+        let fields = |a: &Option<String>| a.as_ref().and_then(|x| x.split_once(';').map(|y| y.1.to_string()));
+        let find = |n: usize, ci: usize| pindex.iter().position(|x| *x == (n, ci)).and_then(|i| fields(&answers[i]));
+        // layout numbering of gen_precedence: n = (se * 3 + ver) * 5 + ed; command lines 6.. are the single --config pairs
+        let singles: [(usize, usize, &str); 6] = [((4 * 3) * 5, 6, "style_edition=2024"), ((2 * 3) * 5, 7, "style_edition=2018"), (2 * 5, 8, "version=Two"), (5, 9, "version=One"), (4, 10, "edition=2024"), (3, 11, "edition=2021")];
+        for (n_file, ci, what) in singles {
+            if let (Some(a), Some(b)) = (find(n_file, 0), find(0, ci)) {
+                o.direct_evals += 1;
+                o.direct_distinct += 1;
+                if a != b {
+                    let (fa, fb) = (parse_fields(&a), parse_fields(&b));
+                    let diff: Vec<String> = fa.iter().filter(|(k, v)| fb.get(*k) != Some(v)).map(|(k, v)| format!("{}: file {:?} vs --config {:?}", k, v, fb.get(k))).collect();
+                    o.direct_failures.push(json!({"sig": "c14:file-vs-config", "what": format!("`{}` has a different effect from a file and from --config (through load_config): {}", what, diff.join("; "))}));
+                }
+            }
+        }
+    }
 
     // end to end
     let mut sets: Vec<E2eSet> = vec![];
